@@ -1,4 +1,5 @@
 import LlirProofs.CoreLemmas
+import LlirProofs.Core2Mod
 /-! # C01 — Parse then print preserves the meaning of every accepted module (property theorems only)
 
 PARTIAL by construction: the structural theorem below covers M-Core (LlirModel/Core.lean: opaque type
@@ -25,5 +26,34 @@ example : ∀ g ∈ [(⟨[97, 32, 98], 32, -7⟩ : GlobalDef), ⟨[0xE4, 0xB8], 
   intro g hg
   simp only [List.mem_cons, List.mem_nil_iff, or_false] at hg
   rcases hg with rfl | rfl | rfl <;> simp [GlobalOK]
+
+/-! ## second fragment (LlirModel/Core2.lean): struct type definitions with bodies, globals of any type,
+      nested aggregate constants -/
+
+/-- M-Core-2 round trip: every module of identified-struct type definitions (opaque or with a body of
+    arbitrarily nested types) and global variables / constants of ANY type initialised by an integer of
+    any width, `zeroinitializer`, `null`, `undef` or an arbitrarily nested struct / packed struct / array /
+    vector constant is read back, from the text the printer printed, as the same module up to the
+    canonical order of type definitions. The readers of types and constants are proved to invert the
+    printers on every type and every constant (`TyParse.parse_tyString`, `Core2.read_const`). -/
+theorem core2_roundtrip (useHex : Int → Bool) (m : Core2.Mod) (h : Core2.WF m) :
+    Core2.translateTok (Core2.printTok useHex m) = some (Core2.canon m) :=
+  Core2.core2_roundtrip useHex m h
+
+/-- non-vacuity: a module with a recursive struct type, a packed struct constant holding an array, a
+    vector, a pointer and an `i1 -1`, satisfies the hypothesis -/
+def sample : Core2.Mod :=
+  ⟨[⟨[78], .struct false (.cons (.int 32) (.cons (.ptr (.named [78]) 0) .nil))⟩],
+   [⟨[103], true, .struct true (.cons (.arr 2 (.int 8)) (.cons (.vec false 2 (.int 1)) (.cons (.ptr (.named [78]) 0) .nil))),
+      .struct true (.cons (.arr 2 (.int 8)) (.arr (.cons (.int 8) (.int (-1)) (.cons (.int 8) (.int 200) .nil)))
+        (.cons (.vec false 2 (.int 1)) (.vec (.cons (.int 1) (.int (-1)) (.cons (.int 1) (.int 0) .nil)))
+        (.cons (.ptr (.named [78]) 0) .null .nil)))⟩]⟩
+
+example : Core2.WF sample := by
+  refine ⟨?_, ?_, ?_, by decide, by decide, by decide⟩
+  · intro d hd; simp [sample] at hd; subst hd; exact ⟨by simp, by decide⟩
+  · intro g hg; simp [sample] at hg; subst hg; simp
+  · intro g hg; simp [sample] at hg; subst hg
+    exact ⟨by decide, by simp [Core2.cwf, Core2.clwf, Core2.firstNoBrace, Types.tyString]⟩
 
 end Llir.Props.C01
